@@ -7,6 +7,7 @@ mod props;
 mod props2;
 mod props3;
 mod props4;
+mod props5;
 mod dom;
 mod pool;
 mod json;
